@@ -12,7 +12,8 @@ from ..model import epx
 LEVEL = "exploration"
 RULE = ("for each pairing curve the twist E'(Fp2) is rebuilt in Python from the reported constants; operands are "
         "written raw (affine, homogeneous and Jacobian forms with random Z in Fp2, the three encodings of the identity), "
-        "every alias pattern, exceptional pairs (O, P=Q, P=-Q, points of small order, points outside the order-r "
+        "every alias pattern, exceptional pairs (O, P=Q, P=-Q, distinct points with the same or the opposite y-coordinate "
+        "(w*x, +-y) for the cube roots of unity w, points of small order, points outside the order-r "
         "subgroup constructed by solving the twist equation); scalars from a fixed hostile list (0, +-1, 2, digit-size "
         "edges, n-1, n, n+1, multiples of n, negative, powers of two, field-size edges, oversized, GLS axis values and all "
         "16 sign patterns of the four Frobenius sub-scalars) plus random ones; every result is compared as a group "
@@ -394,8 +395,18 @@ def run(ctx, part):
         return "P" if fn.endswith("projc") else ("J" if fn.endswith("jacob") else ("A" if fn.endswith("basic") else
                {"ep2_add_projc": "P", "ep2_add_jacob": "J", "ep2_add_basic": "A"}[R.target("ep2_add")]))
 
+    # primitive cube roots of unity of Fp2: (w x, y) lies on y^2 = x^3 + b' whenever (x, y) does (the twists have a = 0),
+    # a DISTINCT point with the SAME y-coordinate - the branch "H != 0, R == 0" of the projective addition formulas
+    assert (M.p * M.p - 1) % 3 == 0
+    W3 = None
+    while W3 is None or F2.eq(W3, F2.one):
+        W3 = F2.pow(F2.rand(rng), (M.p * M.p - 1) // 3)
+    W3 = [W3, F2.mul(W3, W3)]
+    assert all(F2.eq(F2.mul(F2.mul(w_, w_), w_), F2.one) and not F2.eq(w_, F2.one) for w_ in W3)
+
     def add_case(fn, rel, ra, rb, alias, Pp=None):
-        """rel: gen eq opp infP infQ infPQ ; alias: 0 none, 1 r==p, 2 r==q, 3 p==q (same object), 4 r==p==q"""
+        """rel: gen eq opp same-y same-neg-y infP infQ infPQ ; alias: 0 none, 1 r==p, 2 r==q, 3 p==q (same object),
+        4 r==p==q"""
         def body():
             pc, P = anypoint() if Pp is None else Pp
             if rel == "gen":
@@ -406,6 +417,10 @@ def run(ctx, part):
                 Q = P
             elif rel == "opp":
                 Q = E.neg(P)
+            elif rel in ("same-y", "same-neg-y"):
+                # x1 != x2, y1 == +-y2 (for ep2_sub the inner addition sees the same y with "same-neg-y")
+                Q = (F2.mul(rng.choice(W3), P[0]), P[1] if rel == "same-y" else F2.neg(P[1]))
+                assert E.on_curve(Q) and not F2.eq(Q[0], P[0])
             elif rel == "infP":
                 P, Q = None, P
             elif rel == "infQ":
@@ -417,7 +432,7 @@ def run(ctx, part):
             al = alias
             if al in (3, 4) and not (rel in ("eq", "infPQ") and ra == rb):
                 al = 0
-            rels = rel if rel in ("gen", "eq", "opp") else "inf"
+            rels = rel if rel in ("gen", "eq", "opp", "same-y", "same-neg-y") else "inf"
             if rels == "eq" and pc == "small":
                 rels = "eq-small-order"
             key = "%s|%s|%s%s|alias%d" % (fn, rels, ra, rb, al)
@@ -484,7 +499,7 @@ def run(ctx, part):
 
     for fn in addfns:
         tg = tags_for(fn)
-        for rel in ("gen", "eq", "opp", "infP", "infQ", "infPQ"):
+        for rel in ("gen", "eq", "opp", "same-y", "same-neg-y", "infP", "infQ", "infPQ"):
             for ra in tg:
                 for rb in tg:
                     for alias in (0, 1, 2, 3, 4):
@@ -506,12 +521,13 @@ def run(ctx, part):
                 for inf in (False, True):
                     if mine():
                         dbl_case(fn, ra, alias, inf)
-    for _ in range(N(480, 6000)):
+    for _ in range(N(320, 6000)):
         fn = rng.choice(addfns)
         tg = tags_for(fn)
-        add_case(fn, rng.choice(["gen", "gen", "gen", "eq", "opp", "infP", "infQ", "infPQ"]), rng.choice(tg), rng.choice(tg),
+        add_case(fn, rng.choice(["gen", "gen", "gen", "eq", "opp", "same-y", "same-neg-y", "infP", "infQ", "infPQ"]),
+                 rng.choice(tg), rng.choice(tg),
                  rng.randrange(5))
-    for _ in range(N(180, 2000)):
+    for _ in range(N(120, 2000)):
         fn = rng.choice(dblfns)
         dbl_case(fn, rng.choice(tags_for(fn.replace("dbl", "add"))), rng.randrange(2), rng.random() < 0.1)
 
@@ -543,7 +559,7 @@ def run(ctx, part):
                 for inf in (False, True):
                     if mine():
                         unary_case(fn, ra, alias, inf)
-    for _ in range(N(135, 1500)):
+    for _ in range(N(90, 1500)):
         unary_case(rng.choice(["ep2_neg", "ep2_norm"]), rng.choice("APJ"), rng.randrange(2), rng.random() < 0.1)
 
     def norm_sim_case(cnt, inplace, with_inf):
@@ -589,7 +605,7 @@ def run(ctx, part):
         for inplace in (0, 1):
             if mine():
                 norm_sim_case(3, inplace, True)
-        for _ in range(N(36, 400)):
+        for _ in range(N(24, 400)):
             norm_sim_case(rng.randrange(1, 9), rng.randrange(2), False)
 
     def cmp_case(rel, ra, rb):
@@ -624,7 +640,7 @@ def run(ctx, part):
             for rb in "APJ":
                 if mine():
                     cmp_case(rel, ra, rb)
-    for _ in range(N(120, 1500)):
+    for _ in range(N(80, 1500)):
         cmp_case(rng.choice(["eq", "eq", "opp", "ne", "inf-fin", "fin-inf", "inf-inf"]), rng.choice("APJ"), rng.choice("APJ"))
 
     def oncurve_case(kind, ra):
@@ -653,7 +669,7 @@ def run(ctx, part):
         for ra in "APJ":
             if mine():
                 oncurve_case(kind, ra)
-    for _ in range(N(90, 1000)):
+    for _ in range(N(60, 1000)):
         oncurve_case(rng.choice(["on", "off-y", "off-x"]), rng.choice("APJ"))
 
     # =========================================================================== scalar multiplication
@@ -703,7 +719,7 @@ def run(ctx, part):
             mul_case(fn, "rand", rng.randrange(n), "sub", alias=1)
         if mine():
             mul_case(fn, "neg", -rng.randrange(n), "G", alias=1)
-    for _ in range(N(510, 6000)):
+    for _ in range(N(340, 6000)):
         fn = rng.choice(mulfns)
         scls, k = rand_scalar(env)
         pcls = rng.choice(["G", "sub", "sub", "subN", "subN"] + ([] if fn in SUBONLY else ["tw", "tw", "twN"]))
@@ -727,7 +743,7 @@ def run(ctx, part):
         for scls, k in SC:
             if mine():
                 gen_case(scls, k)
-        for _ in range(N(75, 800)):
+        for _ in range(N(50, 800)):
             gen_case(*rand_scalar(env))
 
     def dig_case(d, pcls, alias=0):
@@ -752,7 +768,7 @@ def run(ctx, part):
             for pcls in ("G", "sub", "subN", "tw", "inf"):
                 if mine():
                     dig_case(d, pcls)
-        for _ in range(N(75, 800)):
+        for _ in range(N(50, 800)):
             dig_case(rng.getrandbits(rng.choice([3, 17, 64, 64])), rng.choice(["G", "sub", "subN", "subN", "tw", "twN"]),
                      int(rng.random() < 0.2))
 
@@ -804,9 +820,9 @@ def run(ctx, part):
         # the hostile list is split over the shards; every shard builds its own table
         mineSC = [sc for i, sc in enumerate(SC) if ctx.mine(i + fi)]
         fi += 1
-        fix_family(v, env.G, "G", mineSC + [rand_scalar(env) for _ in range(N(18, 300))])
+        fix_family(v, env.G, "G", mineSC + [rand_scalar(env) for _ in range(N(12, 300))])
         fix_family(v, rng.choice(S), "sub", [sc for i, sc in enumerate(SC) if ctx.mine(i + fi + 2) and i % 3 == 0] +
-                   [rand_scalar(env) for _ in range(N(18, 300))])
+                   [rand_scalar(env) for _ in range(N(12, 300))])
         if ctx.mine(fi):
             fix_family(v, epx.Base(E, None), "inf", [("zero", 0), ("one", 1), ("rand", rng.randrange(n))])
 
@@ -833,7 +849,7 @@ def run(ctx, part):
         for alias in (1, 2):
             if mine():
                 sim_case(fn, "gen", "rand", rng.randrange(n), "rand", rng.randrange(n), alias=alias)
-    for _ in range(N(330, 4000)):
+    for _ in range(N(220, 4000)):
         fn = rng.choice(simfns)
         kc, k = rand_scalar(env)
         mc, m = rand_scalar(env)
@@ -869,7 +885,7 @@ def run(ctx, part):
         for qcls in ("inf", "G", "subN"):
             if mine():
                 simgen_case("rand", rng.randrange(n), "rand", rng.randrange(n), qcls)
-        for _ in range(N(60, 800)):
+        for _ in range(N(40, 800)):
             kc, k = rand_scalar(env)
             mc, m = rand_scalar(env)
             simgen_case(kc, k, mc, m, rng.choice(["sub", "sub", "G", "subN"]))
@@ -916,7 +932,7 @@ def run(ctx, part):
             for sp in (None, "all-zero", "same-point", "with-inf"):
                 if mine():
                     simdig_case(cnt, sp)
-        for _ in range(N(45, 500)):
+        for _ in range(N(30, 500)):
             simdig_case(rng.randrange(1, 7))
 
     def simlot_case(cnt, special=None):
@@ -975,7 +991,7 @@ def run(ctx, part):
             for sp in ("hostile", "same-point", "cancel", "with-inf", "zero-scalar"):
                 if mine():
                     simlot_case(cnt, sp)
-        for _ in range(N(12, 200)):
+        for _ in range(N(8, 200)):
             simlot_case(rng.choice([1, 2, 3, 5, 9, 10, 11, 13]), rng.choice([None, None, "hostile"]))
 
     # =========================================================================== Frobenius
@@ -1042,9 +1058,9 @@ def run(ctx, part):
                 frb_tw_case(rep)
         if small and mine():
             frb_tw_case("A", "small")
-        for _ in range(N(120, 1200)):
+        for _ in range(N(80, 1200)):
             frb_sub_case(rng.choice([1, 1, 2, 2, 3, 3, 4, 5, 7]), rng.choice("AAPJ"), int(rng.random() < 0.2))
-        for _ in range(N(18, 200)):
+        for _ in range(N(12, 200)):
             T.append(epx.Base(E, M.rand_point2(rng)))
             frb_tw_case(rng.choice("AAP"))
         # infinity
@@ -1129,10 +1145,10 @@ def run(ctx, part):
                     cof_case(pcls, rep)
         if mine():
             cof_case("tw", "A", alias=1)
-        for _ in range(N(42, 500)):
+        for _ in range(N(28, 500)):
             cof_case(rng.choice(["tw", "tw", "tw", "sub"] + (["small", "small+sub"] if small else [])), rng.choice(["A", "A", NAT]),
                      int(rng.random() < 0.15))
-        for _ in range(N(9, 100)):
+        for _ in range(N(6, 100)):
             cof_hom_case()
 
     # =========================================================================== small utilities
@@ -1230,17 +1246,17 @@ def run(ctx, part):
                 if mine():
                     misc_infty(rep, inf)
     if has("ep2_rhs"):
-        for _ in range(N(15, 300)):
+        for _ in range(N(10, 300)):
             misc_rhs()
     if has("ep2_blind"):
         for rep in ("A", NAT):
             for alias in (0, 1):
                 if mine():
                     misc_blind(rep, alias)
-        for _ in range(N(10, 200)):
+        for _ in range(N(7, 200)):
             misc_blind(rng.choice(["A", NAT]), rng.randrange(2))
     if has("ep2_rand"):
-        for _ in range(N(3, 60)):
+        for _ in range(N(2, 60)):
             misc_rand()
     if has("ep2_tab"):
         for wd in (2, 3, 4, 5, 6):
